@@ -556,7 +556,7 @@ func tail(s string, n int) string {
 }
 
 // runMaster: the guided mode.  budget = quota runs per history (legacy plans included).
-func runMaster(count, first, workers int, outPath string, quota, mult int) int {
+func runMaster(count, first, workers int, outPath string, quota, mult, mult2, legacy int) int {
 	if workers > count {
 		workers = count
 	}
@@ -585,7 +585,6 @@ func runMaster(count, first, workers int, outPath string, quota, mult int) int {
 		m.ws = append(m.ws, &workerProc{cmd: cmd, in: in, out: bufio.NewReaderSize(out, 1<<20), err: eb, k: k})
 	}
 	// twins (and the sampled index-rule plans), histories handed out as workers become free
-	const legacy = 3
 	jobs := make(chan int, count)
 	for i := 0; i < count; i++ {
 		jobs <- first + i
@@ -607,7 +606,7 @@ func runMaster(count, first, workers int, outPath string, quota, mult int) int {
 		budget = count
 	}
 	used := m.runPhase(1, mult, budget*2/5)
-	used += m.runPhase(2, mult, budget-used)
+	used += m.runPhase(2, mult2, budget-used)
 	m.perWorker(func(wp *workerProc) {
 		io.WriteString(wp.in, "QUIT\n")
 		wp.in.Close()
